@@ -84,12 +84,17 @@ def generate(seed: int, tier: str) -> Dict[str, Any]:
         raw.setdefault(sec, {}).setdefault("cache", {}).setdefault(key, 10_000_000)
     raw.setdefault("t4", {}).setdefault("cache", {}).setdefault("ttl_sec", 10_000_000)
     if r.chance(0.2):
-        # stage-level thread pools (E4: schedule axis).  Caches stay large enough never to evict: schedule-dependent
-        # eviction counters of tiny shared caches are C09's recorded finding, not re-reported here.
+        # stage-level thread pools (E4: schedule axis).  In half of these programs the shared stage caches are large enough
+        # never to evict; in the other half they are tiny (1-2 entries), so that which entry is evicted - and with it the
+        # cache counters of the canonical logs - would follow the worker schedule if any worker touched the cache
+        # (the defect once recorded under C09 has been repaired in the tree: workers only propagate).
         raw.setdefault("perf", {}).setdefault("parallel", {}).update({"enabled": True, "t1": True, "t2": True, "max_workers": r.choice([2, 3, 8])})
+        tiny = r.chance(0.5)
         for sec in ("t1", "t2"):
             c = raw.setdefault(sec, {}).setdefault("cache", {})
-            if c.get("max_entries") in (0, 1, 2):
+            if tiny:
+                c["max_entries"] = r.choice([1, 2, 2])
+            elif c.get("max_entries") in (0, 1, 2):
                 c["max_entries"] = 512
         pc = raw.get("perf", {})
         for sec in ("t1", "t2"):
@@ -115,6 +120,25 @@ def generate(seed: int, tier: str) -> Dict[str, Any]:
         if len(turn_idx) >= 2:
             at = r.choice(turn_idx[1:])
             ops.insert(at, {"op": "restart", "tie_mtimes": r.chance(0.7)})
+    if r.chance(0.08):
+        # contention for a tiny shared T1 result cache under the stage thread pool: one agent, three graphs that each answer
+        # to their own word, a two-entry cache, and turns that name two, then all three, then all three words again -
+        # which entry the third graph's insertion evicts must not follow the worker schedule
+        words = r.sample(["alpha", "beta", "gamma", "delta"], 3)
+        ag = sorted(world["agents"])[0]
+        world["graphs"] = {"g:%d" % i: {"nodes": [{"id": "s%d" % i, "label": w, "tags": []}, {"id": "t%d" % i, "label": "", "tags": []}],
+                                        "edges": [{"id": "e%d" % i, "src": "s%d" % i, "dst": "t%d" % i, "weight": 0.8, "rel": "supports"}]}
+                           for i, w in enumerate(words)}
+        world["agents"] = {ag: sorted(world["graphs"])}
+        raw.setdefault("perf", {})["enabled"] = True
+        raw["perf"].setdefault("parallel", {}).update({"enabled": True, "t1": True, "t2": r.chance(0.5), "max_workers": r.choice([2, 3, 4])})
+        raw["perf"].pop("t1", None)
+        raw.setdefault("t1", {})["cache"] = {"max_entries": 2, "ttl_s": 10_000_000}
+        raw["t1"].pop("queue_budget", None)
+        raw.pop("scheduler", None)
+        order = r.sample(words, 3)
+        texts = [" ".join(order[1:]), " ".join(order), " ".join(r.sample(words, 3)), " ".join(r.sample(words, r.randint(1, 3)))]
+        ops = [{"op": "turn", "agent": ag, "text": t, "turn_id": i, "now_ms": E.T0_MS + 1000 * i} for i, t in enumerate(texts)]
     # every turn carries the logical clock (ctx.now / ctx.now_ms): the property is stated for a given logical clock;
     # without one the engine documents a fall-back to the wall clock, which is not a reproducibility defect.
     return {"world": world, "cfg": raw, "ops": ops, "profile": r.choice(PROFILES), "clock_seed": int(r.u64() % (1 << 31)),
